@@ -13,6 +13,7 @@ import Driver.Naming
 import Driver.Wrappers
 import Driver.Emf
 import Driver.Queue
+import Driver.EmfAgree
 /-!
 `driver <engine>`: reads one request per line on stdin, prints one reply per line.
 Every engine is a pure function `String → String` of the request line (stateful models receive the
@@ -34,7 +35,8 @@ def engines : List (String × (String → String)) := [
   ("naming", Driver.Naming.handle),
   ("wrappers", Driver.Wrappers.handle),
   ("emf", Driver.Emf.handle),
-  ("queue", Driver.Queue.handle)
+  ("queue", Driver.Queue.handle),
+  ("emfagree", Driver.EmfAgree.handle)
 ]
 
 partial def loop (h : IO.FS.Stream) (out : IO.FS.Stream) (f : String → String) : IO Unit := do
